@@ -421,6 +421,18 @@ impl ArtefactMedium {
                 }
                 (b, offs)
             }
+            "script_asm" | "template_asm" if rng.chance(1, 25) => {
+                // a bare hex data token whose length sits on a push-opcode boundary (75 / 76, 255 / 256, 65 535 / 65 536 bytes):
+                // the text decoders choose the push opcode from the token's length
+                let n = *rng.pick(&[75usize, 76, 255, 256, 65_535, 65_536, 65_536, 65_537]);
+                let tok = hx(&rng.bytes(n));
+                let text = match rng.below(3) {
+                    0 => tok,
+                    1 => format!("OP_1 {} OP_DROP", tok),
+                    _ => format!("{} OP_SIZE", tok),
+                };
+                (text.into_bytes(), vec![])
+            }
             "script_asm" | "json_script" => {
                 let b = Self::gen_script_bytes(rng, false);
                 match Script::from_bytes(&b) {
